@@ -184,7 +184,7 @@ example : ∃ (A : Pos → Option (Leaf T)) (C C2 : T → Option Pos),
     HInv (ingA (pathSet F5 [(0, 1), (0, 3)]) (F5.proofPositions [(0, 1), (0, 3)]) [(0, 1), (0, 3)] (tvF F5) A)
       C2 F5.nodes (FRoot F5) (fun x => (C2 x).isSome = true) (fun _ => False) := by
   have s := m5p_sinv
-  have Lw := s.laws crT
+  have Lw := s.laws crT.toNZ
   have hn64 := s.n_lt64
   obtain ⟨A, C, rep, inv⟩ := s.abs
   have hc := canon13
@@ -205,7 +205,7 @@ example : ∃ (A : Pos → Option (Leaf T)) (C C2 : T → Option Pos),
   let C2 : T → Option Pos := fun x => if x ∈ [T.leaf 1, T.leaf 3] then F5.posOf x else C x
   refine ⟨A, C, C2, by decide +kernel, by decide +kernel, hinv, ?_⟩
   refine hinv_fill Lw (KL := fun x => x ∈ [T.leaf 1, T.leaf 3]) hinv
-    (ts_iff crT hn64 s.hyg hc)
+    (ts_iff crT.toNZ hn64 s.hyg hc)
     (fun q hq => ps_node hc hq)
     (fun q hq => ps_anc hc hq)
     (fun t ht => targets_sub_pathSet tok ht)
